@@ -1,0 +1,1 @@
+//! Hooks for property C03 (empty unless needed).
